@@ -71,7 +71,7 @@ var gluelockCacheStates = []string{"off", "cold", "warm", "fresh"}
 
 func gluelockGenPlan(r *Rng, tier string) *gluelockPlan {
 	p := &gluelockPlan{Victim: r.Range(0, 40), FaultHTTP: r.Chance(30), Stale: r.Chance(50)}
-	if tier == "thorough" {
+	if tier == "thorough" && r.Chance(25) {
 		p.Full = true
 		p.Stale = true
 		p.Combos = []gluelockCombo{{false, false}, {true, false}, {false, true}, {true, true}}
@@ -193,6 +193,11 @@ func (e *gluelockEnv) build(c gluelockCombo, cacheDir, lockText string) E2EOut {
 	}
 	files := map[string][]byte{}
 	collectDir(out, "layout/", files)
+	if os.Getenv("GLUELOCK_DEBUG") != "" {
+		for n, b := range files {
+			fmt.Fprintf(os.Stderr, "gluelock: out %s %d %x\n", n, len(b), b[:min(4, len(b))])
+		}
+	}
 	return E2EOut{Files: files}
 }
 
@@ -247,7 +252,9 @@ func gluelockImages(o E2EOut) [][]gluelockIdbEntry {
 		if err != nil {
 			continue
 		}
+		// one layer per image here; an image without packages may carry no installed database at all
 		tr := tar.NewReader(zr)
+		img := []gluelockIdbEntry{}
 		for {
 			h, err := tr.Next()
 			if err != nil {
@@ -257,7 +264,6 @@ func gluelockImages(o E2EOut) [][]gluelockIdbEntry {
 				continue
 			}
 			data, _ := io.ReadAll(tr)
-			img := []gluelockIdbEntry{}
 			for _, para := range strings.Split(string(data), "\n\n") {
 				var en gluelockIdbEntry
 				for _, l := range strings.Split(para, "\n") {
@@ -281,8 +287,8 @@ func gluelockImages(o E2EOut) [][]gluelockIdbEntry {
 					img = append(img, en)
 				}
 			}
-			out = append(out, img)
 		}
+		out = append(out, img)
 	}
 	return out
 }
@@ -298,8 +304,8 @@ func gluelockListed(lf lkLockFile, arch string) []string {
 	return l
 }
 
-// gluelockShowImages: canonical text of what the images built from a lock hold: per image `arch:entry,entry…` (arch from
-// the A: lines, `?` for an image without packages), images sorted.
+// gluelockShowImages: canonical text of what the images built from a lock hold: per image with packages
+// `arch:entry,entry…` (arch from the A: lines), images sorted.
 func gluelockShowImages(o E2EOut) string {
 	var parts []string
 	for _, img := range gluelockImages(o) {
@@ -313,6 +319,10 @@ func gluelockShowImages(o E2EOut) string {
 			}
 			l = append(l, e.P+" "+e.V+" "+e.C)
 		}
+		if len(l) == 0 {
+			// a build for an empty package list emits an image without packages or no image at all: both hold nothing
+			continue
+		}
 		parts = append(parts, xs(arch)+":"+xl(l))
 	}
 	sort.Strings(parts)
@@ -324,11 +334,10 @@ func gluelockShowListed(lf lkLockFile, archs []string) string {
 	var parts []string
 	for _, a := range archs {
 		l := gluelockListed(lf, a)
-		arch := a
 		if len(l) == 0 {
-			arch = "?"
+			continue
 		}
-		parts = append(parts, xs(arch)+":"+xl(l))
+		parts = append(parts, xs(a)+":"+xl(l))
 	}
 	sort.Strings(parts)
 	return strings.Join(parts, ";")
